@@ -196,15 +196,9 @@ class MatrixExpression:
         """Scalar division."""
         return _matrix_binary_op(self, other, "/")
 
-    def __rtruediv__(self, other: float | int) -> MatrixExpression:
-        """Right scalar division: other / self."""
-        rows, cols = self.shape
-        const = Constant(other)
-        result_exprs = [
-            [BinaryOp(const, self._expressions[i][j], "/") for j in range(cols)]
-            for i in range(rows)
-        ]
-        return MatrixExpression(result_exprs)
+    def __rtruediv__(self, other: float | int | NDArray) -> MatrixExpression:
+        """Right division: other / self (scalar or array of the same shape)."""
+        return _matrix_reflected_div(other, self._expressions, self.shape)
 
     def __neg__(self) -> MatrixExpression:
         """Negate all elements."""
@@ -348,6 +342,33 @@ def _matrix_binary_op(
     ]
 
     return MatrixExpression(result_exprs)
+
+
+def _matrix_reflected_div(
+    left: float | int | NDArray,
+    right_exprs: Sequence[Sequence[Expression]],
+    shape: tuple[int, int],
+) -> MatrixExpression:
+    """Element-wise ``left / right`` for a scalar or same-shape array ``left``."""
+    rows, cols = shape
+    if isinstance(left, (np.ndarray, list, tuple)) and np.ndim(left) > 0:
+        arr = np.asarray(left)
+        if arr.shape != (rows, cols):
+            raise DimensionMismatchError(
+                operation="element-wise /",
+                left_shape=arr.shape,
+                right_shape=(rows, cols),
+            )
+        left_exprs = [[Constant(arr[i, j]) for j in range(cols)] for i in range(rows)]
+    else:
+        const = Constant(left)
+        left_exprs = [[const for _ in range(cols)] for _ in range(rows)]
+    return MatrixExpression(
+        [
+            [BinaryOp(left_exprs[i][j], right_exprs[i][j], "/") for j in range(cols)]
+            for i in range(rows)
+        ]
+    )
 
 
 def _matrix_constraint(
@@ -980,15 +1001,9 @@ class MatrixVariable:
         """Scalar division: X / 2."""
         return _matrix_binary_op(self, other, "/")
 
-    def __rtruediv__(self, other: float | int) -> MatrixExpression:
-        """Right division: scalar / X."""
-        rows, cols = self.shape
-        const = Constant(other)
-        result_exprs = [
-            [BinaryOp(const, self._variables[i][j], "/") for j in range(cols)]
-            for i in range(rows)
-        ]
-        return MatrixExpression(result_exprs)
+    def __rtruediv__(self, other: float | int | NDArray) -> MatrixExpression:
+        """Right division: scalar / X or array / X."""
+        return _matrix_reflected_div(other, self._variables, self.shape)
 
     def __neg__(self) -> MatrixExpression:
         """Negate all elements: -X."""
